@@ -437,6 +437,14 @@ func unknownCase(c *C, r *Root, m protoreflect.Message, subT protoreflect.Messag
 	for _, mt := range []protoreflect.MessageType{r.MT, subT} {
 		d := mt.New()
 		if err := (proto.UnmarshalOptions{AllowPartial: true, DiscardUnknown: true}).Unmarshal(b, d.Interface()); err == nil {
+			// first through re-encoding, before anything touches (and thereby expands) a lazily kept submessage
+			if rb, err := partial.Marshal(d.Interface()); err == nil {
+				re := mt.New()
+				if unm(false).Unmarshal(rb, re.Interface()) == nil {
+					c.Check(!hasUnknownAnywhere(re), "Marshal after Unmarshal(DiscardUnknown) re-emits unknown fields", in, "")
+				}
+				c.Check(proto.Size(d.Interface()) == len(rb), "Size != len(Marshal) after Unmarshal(DiscardUnknown)", in, "")
+			}
 			c.Check(!hasUnknownAnywhere(d), "DiscardUnknown retained unknown fields", in, "")
 		}
 	}
